@@ -527,20 +527,10 @@ class Check:
                     log('  %s: UNDECIDED %s leaf %d %s' % (h, ob['id'], ob['leaf'], r.get('attempts')))
                     if os.environ.get('VERIF_DEBUG') and r.get('script'):
                         open(os.path.join(BUILD, 'undecided-%s-%s-%d.smt2' % (h.split('::')[-1], re.sub(r'\W', '_', ob['id']), ob['leaf'])), 'w').write(r['script'])
-        # vacuity: every cover id must be reachable on some path
-        cov_ok = {}
-        for cid, pcs in m.covers.items():
-            ok = False
-            for pc in pcs:
-                script, _, _ = solver.build_script(list(pc), o)
-                if script is None:
-                    continue
-                res, who, dt, out, att = solver.portfolio(script, [('z3', 5), ('z3-new', 10)])
-                if res == 'sat':
-                    ok = True
-                    break
-            cov_ok[cid] = ok
-            s.stats['covers'] += 1
+        # vacuity: every cover id must be reachable on some path -- decided after the differential runs
+        # (a native run that reaches the cover is a witness; the solver is asked only for the others)
+        cov_ok = {cid: False for cid in m.covers}
+        s.pending_covers = (m.covers, o)
         s.harness_info[h]['covers'] = cov_ok
         s.harness_info[h]['order'] = order
         s.harness_info[h]['cover_ids'] = list(m.covers.keys())
@@ -688,8 +678,21 @@ class Check:
                             import traceback
                             traceback.print_exc()
                         covered = set()
-                    for cid, ok in s.harness_info[h]['covers'].items():
-                        if not ok and cid not in covered:
+                    covers, o = s.pending_covers
+                    for cid, pcs in covers.items():
+                        s.stats['covers'] += 1
+                        ok = cid in covered
+                        if not ok:
+                            for pc in pcs:
+                                script, _, _ = solver.build_script(list(pc), o)
+                                if script is None:
+                                    continue
+                                res, who, dt, out, att = solver.portfolio(script, [('z3', 5), ('z3-new', 10)])
+                                if res == 'sat':
+                                    ok = True
+                                    break
+                        s.harness_info[h]['covers'][cid] = ok
+                        if not ok:
                             s.inconclusive.append((h, 'reachability witness %r not shown reachable (vacuity guard)' % cid))
                             log('  %s: cover %s not shown reachable' % (h, cid))
         return s.finish()
@@ -755,7 +758,8 @@ class Check:
         validate_evidence(ev)
         json.dump(ev, open(os.path.join(VERIF, 'evidence', '%s.json' % s.prop), 'w'), indent=1, default=str)
         for v, line in s.known:
-            print('KNOWN-FINDING: property=%s %s' % (s.prop, line.split(' ', 1)[1] if ' ' in line else line))
+            rest = re.sub(r'^known:\s*property=\S+\s*', '', line)
+            print('KNOWN-FINDING: property=%s %s' % (s.prop, rest))
         if new_viol:
             seen = set()
             for v in new_viol:
